@@ -454,7 +454,24 @@ class Executor:
                 meta = None
             elif k == "subslice":
                 if e["from_end"]:
-                    raise Undecided("from_end subslice")
+                    # `[a, rest @ ..]` / `[.., z]` patterns on a slice: from `from` to `len - to`
+                    if meta is None:
+                        raise Undecided("from_end subslice of a slice of unknown length")
+                    ln = meta.poly() if isinstance(meta, IntV) else None
+                    if ln is None:
+                        raise Undecided("from_end subslice")
+                    c = st.facts.simplify(ln).const_value()
+                    base = 0
+                    if path and path[-1][0] == "s":
+                        base, path = path[-1][1], path[:-1]
+                    if c is not None:
+                        path = path + (("s", base + e["from"], base + c - e["to"]),)
+                    else:
+                        if base:
+                            raise Undecided("from_end subslice inside a constant subslice")
+                        path = path + (("sx", repr(Poly.const(e["from"])), repr(ln - e["to"])),)
+                    meta = IntV(self.pbits, False, p=ln - e["from"] - e["to"])
+                    continue
                 path = path + (("s", e["from"], e["to"]),)
                 meta = None
             elif k == "opaquecast":
@@ -1443,6 +1460,28 @@ class Executor:
             return None
         blk = fr.body["blocks"][header]
         t = blk["term"]
+        if t["k"] == "switch":
+            # `while let [x, rest @ ..] = rest`: the header tests the length of a slice; if that slice has a known
+            # length now, the loop peels it element by element - expand it like a `for` over a table
+            probe = st.fork()
+            saved, self.write_log = self.write_log, None
+            self.dry += 1
+            try:
+                for s_ in blk["stmts"]:
+                    if s_["k"] == "assign" and s_["rv"].get("k") == "unop" and s_["rv"].get("op") == "PtrMetadata":
+                        a_ = self.operand(probe, fr, s_["rv"]["operand"] if "operand" in s_["rv"] else s_["rv"]["a"])
+                        p_ = self.resolve_ptr(probe, a_)
+                        if isinstance(p_.meta, IntV):
+                            c_ = probe.facts.simplify(p_.meta.poly()).const_value()
+                            if c_ is not None and 0 <= c_ <= self.MAX_UNROLL:
+                                return c_
+                    self.statement(probe, fr, s_)
+            except (Undecided, KeyError, TypeError, AttributeError):
+                return None
+            finally:
+                self.dry -= 1
+                self.write_log = saved
+            return None
         if t["k"] != "call" or not t["args"]:
             return None
         try:
@@ -1910,7 +1949,7 @@ class Executor:
                 except Undecided:
                     cur = None
                 if cur is not None and cur is not Undef:
-                    new = self.havoc_like(cur, name, inv, root, tuple((s_[0], s_[1]) for s_ in path))
+                    new = self.havoc_like(cur, name, inv, root, tuple((s_[0], s_[1]) for s_ in path), top=True)
                 else:
                     ty = self.local_ty(fr, root[2]) if (root[0] == "L" and root[1] == fr.fid) else None
                     lty = self.loc_type(st, fr, root, path, ty)
@@ -2071,7 +2110,7 @@ class Executor:
                     return False
         return True
 
-    def havoc_like(self, v, name, inv=None, root=None, path=()):
+    def havoc_like(self, v, name, inv=None, root=None, path=(), top=False):
         """fresh unknown value of the same shape (struct / tuple / iterator-adaptor structure kept,
         enum variants forgotten); integer leaves get the interval invariant if one is known."""
         if isinstance(v, IntV):
@@ -2099,7 +2138,16 @@ class Executor:
             return SymV(v.ty, self.fresh(name))
         if isinstance(v, ITE):
             return self.havoc_like(v.a, name, inv, root, path)
-        if isinstance(v, (Ptr, FnV)):
+        if isinstance(v, Ptr):
+            # a pointer the loop re-assigns (e.g. `rest = tail`) is unknown at the loop head: an opaque reference to
+            # an object of the same type (temporaries re-borrowed in every iteration are written before they are read)
+            # (only for a location that itself holds the pointer: a pointer inside an iterator value names the
+            # sequence it iterates over, which `next` does not change)
+            if top and v.pty is not None:
+                tgt = v.pty if v.meta is None or v.pty.get("k") == "slice" else {"k": "slice", "ty": v.pty.get("ty") if v.pty.get("k") == "array" else v.pty}
+                return self.mk_sym({"k": "ref", "mut": bool(v.mut), "ty": tgt}, self.fresh(name))
+            return v
+        if isinstance(v, FnV):
             return v
         if isinstance(v, Term):
             return SymV(v.ty, self.fresh(name)) if v.ty is not None else v
